@@ -12,12 +12,14 @@ from .common import ds, dsid, scan
 R = "cascade.gateway.router"
 S = "cascade.gateway.server"
 META = {
-    "explanation": "Static structural analysis of the gateway router/server on model jobs: truth table of the progress update (kept only "
-                   "for a real progress value with a newer timestamp; the kept timestamp is stored; result-only and shutdown reports change "
-                   "neither), results stored and read per (job, dataset) with no sharing between jobs, job table never shrinks and ids come "
-                   "from next_uuid over the existing keys, each job gets a fresh result container, every request class has a branch whose "
-                   "failure becomes the same-stem response with an error and the reply is always sent. "
-                   "Not decided: malformed requests, reports for unknown jobs.",
+    "explanation": "Static analysis of the gateway router/server by abstract interpretation of report histories through the real entry "
+                   "points (two model jobs created by spawn_job, reports fed through handle_controller, observed with progress_of / get_result; "
+                   "no field of Job is named by the rules): the progress shown is the one of the progress report with the greatest timestamp; "
+                   "older, result-only and shutdown reports neither change it nor advance the time mark; results are returned as uploaded per "
+                   "(job, dataset) — including dataset ids with colliding printed forms — and never for another job; ids are redrawn until "
+                   "unused, the job table never shrinks, jobs share no state; every request class is answered with the same-stem response, "
+                   "with an error iff the router call failed, and the reply is always sent. "
+                   "Not decided: malformed requests, arbitrary interleavings of frontend requests with reports.",
     "assumptions": ["zmq sockets/poller are opaque"],
 }
 
